@@ -95,6 +95,25 @@ pub(crate) struct Defs {
     pub(crate) unk_def: String,
     /// the generator broke one of the files on purpose
     pub(crate) broken: bool,
+    /// the definition MUST be rejected by `set_up` (a malformed line written on purpose)
+    pub(crate) must_fail: bool,
+    /// how the MeCab plugin finds its files: 0 = `charDef`/`unkDef` name the default files, 1 = both keys omitted
+    /// (defaults `char.def`/`unk.def`), 2 = other file names (`char2.def`/`unk2.def`; the default-named unk.def is empty)
+    pub(crate) files: u8,
+    /// behaviour lines the MeCab plugin reads when they are NOT in the grammar's char.def (`files == 2`)
+    pub(crate) mecab_def: Option<String>,
+    /// connection-matrix shape of the dictionary the case is loaded with (default: square, `N_IDS`)
+    pub(crate) dims: Option<(usize, usize)>,
+    /// which malformed line was written (distribution counter)
+    pub(crate) note: String,
+    /// unk.def as BYTES when it is not valid UTF-8 (otherwise `unk_def`)
+    pub(crate) unk_raw: Option<Vec<u8>>,
+}
+
+impl Defs {
+    fn unk_bytes(&self) -> Vec<u8> {
+        match &self.unk_raw { Some(b) => b.clone(), None => self.unk_def.as_bytes().to_vec() }
+    }
 }
 
 impl Defs {
@@ -145,6 +164,23 @@ fn pos_json(p: usize) -> String {
 
 pub(crate) fn mecab_json() -> String {
     r#"{"class":"com.worksap.nlp.sudachi.MeCabOovPlugin","charDef":"char.def","unkDef":"unk.def"}"#.to_string()
+}
+
+/// the three shapes of the plugin settings (see `Defs::files`)
+fn mecab_json_of(d: &Defs) -> String {
+    match d.files {
+        1 => r#"{"class":"com.worksap.nlp.sudachi.MeCabOovPlugin"}"#.to_string(),
+        2 => r#"{"class":"com.worksap.nlp.sudachi.MeCabOovPlugin","charDef":"char2.def","unkDef":"unk2.def"}"#.to_string(),
+        _ => mecab_json(),
+    }
+}
+
+/// the text `read_character_property` is given
+fn mecab_def_text(d: &Defs) -> &str {
+    match (&d.mecab_def, d.files) {
+        (Some(t), 2) => t.as_str(),
+        _ => d.char_def.as_str(),
+    }
 }
 
 pub(crate) fn simple_json(p: &SimpleP) -> String {
@@ -396,10 +432,30 @@ fn expect_mecab(d: &Defs, cats: &[u32], runs: &[usize], off: usize, nothing_yet:
             if info.group {
                 out.insert((off, off + run, u.l, u.r, u.cost, u.pos));
             }
-            for len in 1..=(info.length as usize) {
+            for len in 1..=(info.length as usize).min(n) {
                 if len <= run && off + len <= n {
                     out.insert((off, off + len, u.l, u.r, u.cost, u.pos));
                 }
+            }
+        }
+    }
+    out
+}
+
+/// how often the definition prescribes each candidate: once per (behaviour line of a class of the character, unknown-word
+/// line of that class, shape), the shapes being the grouped candidate and the lengths 1..n that fit the budget and the text
+fn expect_mecab_counts(d: &Defs, cats: &[u32], runs: &[usize], off: usize, nothing_yet: bool) -> std::collections::BTreeMap<Cand, usize> {
+    let n = cats.len();
+    let mut out = std::collections::BTreeMap::new();
+    let run = runs[off];
+    for info in &d.infos {
+        if cats[off] & info.cat != info.cat { continue; }
+        if !(info.invoke || nothing_yet) { continue; }
+        for u in d.unks.iter().filter(|u| u.cat == info.cat) {
+            if info.group { *out.entry((off, off + run, u.l, u.r, u.cost, u.pos)).or_insert(0) += 1; }
+            let budget = if info.group { run - 1 } else { run };
+            for len in 1..=(info.length as usize).min(n) {
+                if len <= budget && off + len <= n { *out.entry((off, off + len, u.l, u.r, u.cost, u.pos)).or_insert(0) += 1; }
             }
         }
     }
@@ -457,9 +513,36 @@ fn build_dic(rows: &[Row], rng_seed: u64) -> Vec<u8> {
     build_system(csv_of(rows, &default_pos()).as_bytes(), m.text().as_bytes()).expect("system dictionary")
 }
 
+/// a system dictionary with a NON-square connection matrix (`nl` left ids, `nr` right ids); built once per shape
+fn system_with_dims(nl: usize, nr: usize) -> Vec<u8> {
+    static CACHE: std::sync::OnceLock<Mutex<std::collections::HashMap<(usize, usize), Vec<u8>>>> = std::sync::OnceLock::new();
+    let m = CACHE.get_or_init(|| Mutex::new(std::collections::HashMap::new()));
+    let mut g = m.lock().unwrap_or_else(|e| e.into_inner());
+    g.entry((nl, nr)).or_insert_with(|| {
+        let k = nl.min(nr);
+        let rows: Vec<Row> = (0..POS.len()).map(|p| Row::simple(&format!("ん{}", p), (p % k) as i32, (p % k) as i32, 100, p)).collect();
+        let mut rng = Rng::new(77);
+        let mx = Matrix::random(&mut rng, nl, nr, false);
+        build_system(csv_of(&rows, &default_pos()).as_bytes(), mx.text().as_bytes()).expect("non-square system dictionary")
+    }).clone()
+}
+
+fn system_of(ctx: &Ctx, d: &Defs) -> Vec<u8> {
+    match d.dims {
+        Some((nl, nr)) => system_with_dims(nl, nr),
+        None => ctx.system.clone(),
+    }
+}
+
 fn load_with(ctx: &Ctx, d: &Defs, system: Vec<u8>, input: &[String], oov: &[String]) -> Result<JapaneseDictionary, String> {
     ctx.wd.write("char.def", &d.char_def);
-    ctx.wd.write("unk.def", &d.unk_def);
+    if d.files == 2 {
+        ctx.wd.write("char2.def", mecab_def_text(d));
+        std::fs::write(ctx.wd.path.join("unk2.def"), d.unk_bytes()).unwrap();
+        ctx.wd.write("unk.def", "");
+    } else {
+        std::fs::write(ctx.wd.path.join("unk.def"), d.unk_bytes()).unwrap();
+    }
     load(&config_json(&ctx.wd, input, oov, &[], &[]), system, vec![])
 }
 
@@ -509,6 +592,19 @@ fn source_unk_ge() -> bool {
             if l.starts_with("sudachi") && l.contains("path") { l.split("path").nth(1).and_then(|r| r.split('"').nth(1)).map(|x| x.to_string()) } else { None }
         }).unwrap_or_else(|| "/repo/sudachi".to_string());
         std::fs::read_to_string(format!("{}/src/plugin/oov/mecab_oov/mod.rs", dir)).map(|s| s.contains("as usize >= grammar.conn_matrix().num_left()")).unwrap_or(false)
+    })
+}
+
+/// does `MeCabOovPlugin::provide_oov_gen` stop its 1..n candidates where the text ends (repair of the text-end duplicates)?
+fn source_mecab_stops() -> bool {
+    static P: std::sync::OnceLock<bool> = std::sync::OnceLock::new();
+    *P.get_or_init(|| {
+        let toml = std::fs::read_to_string(format!("{}/harness/Cargo.toml", std::env::var("VERIF_ROOT").unwrap_or_else(|_| "/verif".into()))).unwrap_or_default();
+        let dir = toml.lines().find_map(|l| {
+            let l = l.trim();
+            if l.starts_with("sudachi") && l.contains("path") { l.split("path").nth(1).and_then(|r| r.split('"').nth(1)).map(|x| x.to_string()) } else { None }
+        }).unwrap_or_else(|| "/repo/sudachi".to_string());
+        std::fs::read_to_string(format!("{}/src/plugin/oov/mecab_oov/mod.rs", dir)).map(|s| s.contains("sublength < i as usize")).unwrap_or(false)
     })
 }
 
@@ -721,7 +817,8 @@ fn len_mask(lens: &[usize]) -> u64 {
 
 pub(crate) fn prov_tokens(kind: &Prov, d: &Defs, sp: &SimpleP, rp: &RegexP, ctx: &Ctx) -> String {
     match kind {
-        Prov::M => format!("mdef={} unk={} poslist={} nl={} nr={} unkge={}", hex(d.char_def.as_bytes()), hex(d.unk_def.as_bytes()), ctx.poslist_hex, N_IDS, N_IDS, if source_unk_ge() { 1 } else { 0 }),
+        Prov::M => format!("mdef={} unk={} poslist={} nl={} nr={} unkge={}", hex(mecab_def_text(d).as_bytes()), hex(&d.unk_bytes()), ctx.poslist_hex,
+            d.dims.map_or(N_IDS, |x| x.0), d.dims.map_or(N_IDS, |x| x.1), if source_unk_ge() { 1 } else { 0 }) + if source_mecab_stops() { " mstop=1" } else { "" },
         Prov::S => format!("sp={}:{}:{}:{}", sp.l, sp.r, sp.cost, sp.pos),
         // `rxempty=skip`: the linked tree's `provide_oov` ignores an empty match (behavioural probe in c03.rs)
         Prov::R => format!("rp={}:{}:{}:{} re={} maxlen={} strict={}{}", rp.l, rp.r, rp.cost, rp.pos,
@@ -736,13 +833,20 @@ fn node_tuple(n: &Node) -> Cand {
 
 /// `prov` case: one provider called directly through the public trait
 fn case_prov(run: &mut Run, ctx: &Ctx, idx: usize, d: &Defs, text: &str, kind: Prov, sp: &SimpleP, rp: &RegexP, rng: &mut Rng, extra: &[(usize, u64, Vec<usize>)]) {
-    let json = match kind { Prov::M => mecab_json(), Prov::S => simple_json(sp), Prov::R => regex_json(rp) };
+    case_prov_q(run, ctx, idx, d, text, kind, sp, rp, rng, extra, false)
+}
+
+/// `only_extra`: ask exactly the queries of `extra` (used where a query at some offsets would not terminate in
+/// reasonable time, e.g. LENGTH = u32::MAX on a run that reaches the end of the text)
+fn case_prov_q(run: &mut Run, ctx: &Ctx, idx: usize, d: &Defs, text: &str, kind: Prov, sp: &SimpleP, rp: &RegexP, rng: &mut Rng, extra: &[(usize, u64, Vec<usize>)], only_extra: bool) {
+    let json = match kind { Prov::M => mecab_json_of(d), Prov::S => simple_json(sp), Prov::R => regex_json(rp) };
     let kname = match kind { Prov::M => "m", Prov::S => "s", Prov::R => "r" };
     let chars: Vec<char> = text.chars().collect();
     let n = chars.len();
     // queries: every offset (a sample for long texts) x created masks
     let mut queries: Vec<(usize, u64, Vec<usize>)> = extra.to_vec();
     for off in 0..n {
+        if only_extra { break; }
         if n > 20 && !(off < 3 || off + 3 > n || rng.chance(1, 8)) { continue; }
         queries.push((off, 0, vec![]));
         let mut mask: u64 = 0;
@@ -757,7 +861,11 @@ fn case_prov(run: &mut Run, ctx: &Ctx, idx: usize, d: &Defs, text: &str, kind: P
     }
     let payload = format!("{} kind={} {} q={}", text_tokens(d, &chars), kname, prov_tokens(&kind, d, sp, rp, ctx),
         join(queries.iter().map(|(o, m, es)| format!("{}:{}:{}", o, m, join(es.iter(), "."))), ";"));
-    let dic = match load_with(ctx, d, ctx.system.clone(), &[], &[json]) {
+    if matches!(kind, Prov::M) {
+        run.bump(&format!("prov:m:settings:{}", match d.files { 1 => "keys-omitted", 2 => "other-file-names", _ => "explicit-default-names" }));
+        if let Some((nl, nr)) = d.dims { run.bump(&format!("prov:m:matrix:{}x{}", nl, nr)); }
+    }
+    let dic = match load_with(ctx, d, system_of(ctx, d), &[], &[json]) {
         Ok(x) => x,
         Err(e) => {
             run.case(idx, "prov", &payload, "err:setup", false);
@@ -769,6 +877,11 @@ fn case_prov(run: &mut Run, ctx: &Ctx, idx: usize, d: &Defs, text: &str, kind: P
         }
     };
     if d.broken && matches!(kind, Prov::M) { run.bump("prov:broken-definition-loaded"); }
+    if d.must_fail && matches!(kind, Prov::M) {
+        run.case(idx, "prov", &payload, "ok accepted-malformed-definition", false);
+        run.fail(idx, "setup:accepted-malformed", &format!("a malformed definition was accepted: char.def {:?} unk.def {:?}", mecab_def_text(d), d.unk_def));
+        return;
+    }
     let ib = match build_input(&dic, text) {
         Ok(x) => x,
         Err(_) => { run.case(idx, "prov", &payload, "PANIC", false); return; }
@@ -778,6 +891,22 @@ fn case_prov(run: &mut Run, ctx: &Ctx, idx: usize, d: &Defs, text: &str, kind: P
     let t = ib.verif_tables();
     let bow: Vec<bool> = (0..n).map(|i| ib.can_bow(t.mod_c2b[i])).collect();
     let spec = spec_runs(&cats);
+    if matches!(kind, Prov::M) {
+        // distribution: characters with several classes whose behaviour lines differ in GROUP (the 1..n limit is per class)
+        for (off, _, _) in &queries {
+            let here: Vec<&Info> = { let mut v: Vec<&Info> = d.infos.iter().filter(|i| i.cat.count_ones() == 1 && cats[*off] & i.cat != 0 && d.unks.iter().any(|u| u.cat == i.cat)).collect(); v.sort_by_key(|i| i.cat); v };
+            run.bump(&format!("prov:m:classes-with-line-at-query:{}", here.len().min(3)));
+            if here.len() >= 2 && here.iter().any(|i| i.group) && here.iter().any(|i| !i.group) {
+                run.bump("prov:m:mixed-group-character");
+                let run_here = cont[*off];
+                for w in here.windows(2) {
+                    if w[0].group && !w[1].group { run.bump("prov:m:mixed-group:lower-bit-grouped-higher-not"); if w[1].length as usize >= run_here { run.bump("prov:m:mixed-group:lower-grouped,higher-length>=run"); } }
+                    if !w[0].group && w[1].group { run.bump("prov:m:mixed-group:higher-bit-grouped-lower-not"); if w[0].length as usize >= run_here { run.bump("prov:m:mixed-group:higher-grouped,lower-length>=run"); } }
+                }
+            }
+            if cats[*off] & 0x3fff_8000 != 0 && cats[*off] & ALLM != ALLM { run.bump("prov:m:query-at-character-with-unnamed-class-bits"); }
+        }
+    }
     let plugin = &dic.oov_provider_plugins()[0];
     let mut answers = vec![];
     let mut produced = 0usize;
@@ -824,6 +953,21 @@ fn case_prov(run: &mut Run, ctx: &Ctx, idx: usize, d: &Defs, text: &str, kind: P
                         &format!("text {:?} offset {} created {:#x}: got {:?}, definition prescribes {:?}", text, off, mask, got, want));
                 }
                 if new.len() != got.len() { run.bump("prov:duplicate-nodes-returned"); }
+                // oracle: every prescribed candidate ONCE per definition line that prescribes it ("candidates of 1..n characters")
+                if matches!(kind, Prov::M) && got == want {
+                    let want_n = expect_mecab_counts(d, &cats, &spec, *off, *mask == 0);
+                    let mut got_n: std::collections::BTreeMap<Cand, usize> = std::collections::BTreeMap::new();
+                    for c in &new { *got_n.entry(*c).or_insert(0) += 1; }
+                    let surplus: Vec<(Cand, usize, usize)> = got_n.iter().filter(|(c, k)| want_n.get(*c).map_or(true, |w| *k > w)).map(|(c, k)| (*c, *k, *want_n.get(c).unwrap_or(&0))).collect();
+                    let missing = want_n.iter().any(|(c, w)| got_n.get(c).map_or(true, |k| k < w));
+                    if !surplus.is_empty() || missing {
+                        // the known shape: only candidates that END AT THE END OF THE TEXT are repeated (char_distance saturates there)
+                        let at_end = !missing && surplus.iter().all(|(c, _, _)| c.1 == n);
+                        run.bump("prov:m:candidate-pushed-more-often-than-prescribed");
+                        run.fail(idx, if at_end { "duplicates:text-end:m" } else { "duplicates:other:m" },
+                            &format!("text {:?} offset {} created {:#x}: candidates returned more often than the definition lines prescribe (candidate, returned, prescribed): {:?}", text, off, mask, surplus));
+                    }
+                }
             }
         }
     }
@@ -861,7 +1005,7 @@ pub(crate) fn gen_lat(rng: &mut Rng, d: &Defs) -> LatCase {
 /// `lat` case: the whole builder; every node of the lattice is compared
 fn case_lat(run: &mut Run, ctx: &Ctx, idx: usize, d: &Defs, text: &str, lc: &LatCase) {
     let system = build_dic(&lc.lex, 77);
-    let oov: Vec<String> = lc.provs.iter().map(|p| match p { Prov::M => mecab_json(), Prov::S => simple_json(&lc.sp), Prov::R => regex_json(&lc.rp) }).collect();
+    let oov: Vec<String> = lc.provs.iter().map(|p| match p { Prov::M => mecab_json_of(d), Prov::S => simple_json(&lc.sp), Prov::R => regex_json(&lc.rp) }).collect();
     let input: Vec<String> = if lc.normalise { vec![r#"{"class":"com.worksap.nlp.sudachi.DefaultInputTextPlugin"}"#.to_string()] } else { vec![] };
     let has_m = lc.provs.iter().any(|p| matches!(p, Prov::M));
     let kinds: Vec<&str> = lc.provs.iter().map(|p| match p { Prov::M => "m", Prov::S => "s", Prov::R => "r" }).collect();
@@ -884,6 +1028,13 @@ fn case_lat(run: &mut Run, ctx: &Ctx, idx: usize, d: &Defs, text: &str, lc: &Lat
             return;
         }
     };
+    if d.must_fail && has_m {
+        let chars: Vec<char> = text.chars().collect();
+        let payload = format!("{} provs={} {} lex={}", text_tokens(d, &chars), kinds.join("."), ptoks.join(" "), lex_tok);
+        run.case(idx, "lat", &payload, "ok accepted-malformed-definition", false);
+        run.fail(idx, "setup:accepted-malformed", &format!("a malformed definition was accepted: char.def {:?} unk.def {:?}", mecab_def_text(d), d.unk_def));
+        return;
+    }
     let spy = Spy::new(dic);
     let dic: &JapaneseDictionary = &spy.dic;
     let ib = match build_input(dic, text) {
@@ -899,18 +1050,52 @@ fn case_lat(run: &mut Run, ctx: &Ctx, idx: usize, d: &Defs, text: &str, lc: &Lat
     let fallback_last = matches!(lc.provs.last(), Some(Prov::S));
     run.bump(&format!("lat:providers:{}", kinds.join(".")));
     if lc.normalise { run.bump("lat:normalised-input"); }
+    // every COMPLETED `provide_oov` call, also of a run that ends in `Err` or a panic (the log outlives the unwinding)
+    let calls: Vec<CallRec> = spy.log.lock().unwrap_or_else(|e| e.into_inner()).clone();
+    let calls_txt = join(calls.iter().map(|c| format!("{}~{}~{}~{}~{}", c.idx, c.offset, c.created, c.pre,
+        if c.out.is_empty() { "_".to_string() } else { join(c.out.iter().map(|x| format!("{}:{}:{}:{}:{}:{}", x.0, x.1, x.2, x.3, x.4, x.5)), ",") })), "+");
     match r {
         Err(p) => {
-            run.case(idx, "lat", &payload, "PANIC", false);
+            run.case(idx, "lat", &payload, &format!("PANIC calls={}", calls_txt), false);
             run.bump(&format!("lat:panic:{}", p.chars().take(40).collect::<String>()));
+            run.bump_by("lat:provider-calls-before-panic", calls.len() as u64);
             run.fail(idx, "lat-panic", &format!("do_tokenize panicked: {}", p));
         }
         Ok(Err(e)) => {
             let cls = err_class(&e);
-            run.case(idx, "lat", &payload, &format!("err:{}", cls), true);
+            run.case(idx, "lat", &payload, &format!("err:{} calls={}", cls, calls_txt), true);
             run.bump(&format!("lat:err:{}", cls));
+            run.bump_by("lat:provider-calls-before-error", calls.len() as u64);
             if fallback_last {
                 run.fail(idx, "disconnect-with-fallback", &format!("text {:?}: {} although the fallback provider is configured last", text, cls));
+            }
+            // oracle on the trace of the failing run (independent of the model): the builder gives up at the first position
+            // where nothing exists - so the LAST call is the extra call of the last provider with an empty mask and an empty
+            // buffer, it pushed nothing, and every call at that position pushed nothing; calls are in position order
+            if cls == "Disconnect" && n > 0 {
+                let nprov = lc.provs.len();
+                let mut why = String::new();
+                match calls.last() {
+                    None => why = "EosBosDisconnect without a single provide_oov call".into(),
+                    Some(l) => {
+                        if !(l.idx == nprov - 1 && l.created == 0 && l.pre == 0 && l.out.is_empty()) {
+                            why = format!("the last call before the error is (provider {}, created {:#x}, buffer {}, {} nodes), not the fruitless extra call of the last provider", l.idx, l.created, l.pre, l.out.len());
+                        } else if calls.iter().filter(|c| c.offset == l.offset).any(|c| !c.out.is_empty()) {
+                            why = format!("a provider pushed nodes at position {} and the builder still reported Disconnect", l.offset);
+                        } else {
+                            // at the failing position: the whole provider list (iff the character's class lets it run) and then the extra call
+                            let here: Vec<usize> = calls.iter().filter(|c| c.offset == l.offset).map(|c| c.idx).collect();
+                            let cat = chars.get(l.offset).map_or(0, |&c| d.cat_of(c));
+                            let mut want: Vec<usize> = if cat & (NOBOW | NOBOW2) == 0 { (0..nprov).collect() } else { vec![] };
+                            want.push(nprov - 1);
+                            if here != want {
+                                why = format!("position {} (class {:#x}): providers called before the error {:?}, expected {:?}", l.offset, cat, here, want);
+                            }
+                        }
+                    }
+                }
+                if calls.windows(2).any(|w| w[0].offset > w[1].offset) { why = "provider calls are not in position order".into(); }
+                if !why.is_empty() { run.fail(idx, "provider-calls:failing-run", &format!("text {:?} providers {}: {}", text, kinds.join("."), why)); }
             }
         }
         Ok(Ok(())) => {
@@ -933,9 +1118,6 @@ fn case_lat(run: &mut Run, ctx: &Ctx, idx: usize, d: &Defs, text: &str, lc: &Lat
                     parts.push(format!("{}={}", b, join(v.iter().map(|x| format!("{}:{}:{}:{}:{}:{}", x.0, x.1, x.2, x.3, x.4, x.5)), ",")));
                 }
             }
-            let calls: Vec<CallRec> = spy.log.lock().unwrap_or_else(|e| e.into_inner()).clone();
-            let calls_txt = join(calls.iter().map(|c| format!("{}~{}~{}~{}~{}", c.idx, c.offset, c.created, c.pre,
-                if c.out.is_empty() { "_".to_string() } else { join(c.out.iter().map(|x| format!("{}:{}:{}:{}:{}:{}", x.0, x.1, x.2, x.3, x.4, x.5)), ",") })), "+");
             run.case(idx, "lat", &payload, &format!("ok {} calls={}", parts.join(";"), calls_txt), per.iter().flatten().any(|x| x.4 == 1));
             run.bump_by("lat:provider-calls", calls.len() as u64);
             // ---- oracle: candidates at every reachable position, recomputed from the definitions
@@ -1219,6 +1401,248 @@ ALPHA 1 0 2\nGREEK 1 0 2\nHIRAGANA 0 0 2\nDEFAULT 0 1 0\n".to_string();
     d
 }
 
+
+// ---------------------------------------------------------------------------------------------
+// third round: the SYNTAX of the two definition files (what `read_character_property` / `read_oov` accept, skip and
+// reject), settings shapes, non-square matrices, characters whose classes mix GROUP flags
+
+fn spell_class(rng: &mut Rng, cat: u32, in_unk: bool) -> String {
+    let name = name_of(cat);
+    let single = cat.count_ones() == 1;
+    match rng.below(if in_unk { 9 } else { 6 }) {
+        0 | 1 | 2 => name.to_string(),
+        3 => format!("{}|{}", name, name),
+        4 => format!("{}|0x0", name),
+        5 => if single { format!("{}|0x{:X}", name, cat) } else { format!("{}|0x1", name) },
+        // unk.def only: the column is not split at white space, and a leading hex literal is not a comment
+        6 => format!("{} ", name),
+        7 => if single { format!("0x{:x}", cat) } else { format!("0x3fffffff") },
+        _ => if single { format!("0x+{:X} | {}", cat, name) } else { format!("{} | {}", name, name) },
+    }
+}
+
+/// `signed`: the column is parsed as `i16` (`-0` is a number), otherwise as `u32` (no minus sign at all)
+fn spell_num(rng: &mut Rng, v: i64, signed: bool) -> String {
+    match rng.below(8) {
+        0 if v >= 0 => format!("+{}", v),
+        1 => if v >= 0 { format!("00{}", v) } else { format!("-00{}", -v) },
+        2 if v == 0 && signed => "-0".to_string(),
+        _ => format!("{}", v),
+    }
+}
+
+fn spell_flag(rng: &mut Rng, b: bool) -> &'static str {
+    if b { "1" } else { *rng.pick(&["0", "0", "0", "2", "01", "true", "-1", "x", "１"]) }
+}
+
+/// re-renders the behaviour lines and unk.def of `d` with every spelling the readers accept (same meaning: `infos`/`unks`
+/// stay the truth), optionally adds characters with class bits that have no name, and - one case in five - ONE malformed
+/// line the readers must reject
+fn noise_defs(rng: &mut Rng, mut d: Defs) -> Defs {
+    if d.broken { return d; }
+    let want_broken = rng.chance(1, 5);
+    let files: u8 = if want_broken { rng.below(2) as u8 } else { rng.below(3) as u8 };
+    // Unicode white space (U+3000, NBSP, EM SPACE, NEL, LINE SEPARATOR) where `trim` / `split_whitespace` accept it: in unk.def,
+    // and in the behaviour lines when they live in a file of their own (the grammar's char.def is C17's business)
+    let uni_md = files == 2 && rng.chance(1, 2);
+    let uni_unk = rng.chance(1, 3);
+    if uni_md { d.note = "unicode-white-space-in-behaviour-lines".into(); }
+    let eol = if rng.chance(1, 4) { "\r\n" } else { "\n" };
+    let ranges: Vec<String> = d.char_def.lines().filter(|l| l.trim_start().starts_with("0x")).map(|l| l.to_string()).collect();
+    let mut cd = String::new();
+    for l in &ranges { cd.push_str(l); cd.push_str(eol); }
+    // characters with class bits that belong to no named class (hex literal in the range line)
+    if rng.chance(1, 5) && !d.pool.is_empty() {
+        let c = *rng.pick(&d.pool);
+        let extra: u32 = *rng.pick(&[0x8000u32, 0x10_0000, 0x2000_0000, 0x18000]);
+        let base = d.assign.iter().filter(|x| x.0 == c).fold(0, |a, x| a | x.1);
+        if base & ALLM != ALLM {
+            match rng.below(3) {
+                0 => cd.push_str(&format!("0x{:04X} 0x{:x}{}", c as u32, extra, eol)),
+                1 => {
+                    let low = 1u32 << (base | 1).trailing_zeros();
+                    cd.push_str(&format!("0x{:04X} {}|0x{:X}{}", c as u32, name_of(low), extra, eol));
+                    d.assign.push((c, low));
+                }
+                _ => cd.push_str(&format!("0x{:04X}..0x{:04X} 0x+{:x} # unnamed{}", c as u32, c as u32, extra, eol)),
+            }
+            d.assign.push((c, extra));
+            d.note = "unnamed-class-bits".to_string();
+        }
+    }
+    let mut md = String::new();
+    if rng.chance(1, 6) { md.push_str(eol); md.push_str("   \t"); md.push_str(eol); }
+    for info in &d.infos {
+        let sep = |rng: &mut Rng| -> &'static str {
+            if uni_md { *rng.pick(&[" ", "\u{3000}", "\u{a0}", "\u{2003}\t", "\u{85}", " \u{2028} "]) } else { *rng.pick(&[" ", " ", "\t", "  ", " \t "]) }
+        };
+        let lead = if uni_md { *rng.pick(&["", "\u{3000}", "\u{2029}\t", " "]) } else { *rng.pick(&["", "", "", " ", "\t", "  "]) };
+        let tail = if uni_md { *rng.pick(&["", "\u{3000}", "\u{a0}# c", "\u{205f}9"]) } else { *rng.pick(&["", "", "", " ", " # comment", "\t# 漢字 👍", " 7 8 9", " 0x41"]) };
+        md.push_str(&format!("{}{}{}{}{}{}{}{}{}{}", lead, spell_class(rng, info.cat, false), sep(rng), spell_flag(rng, info.invoke), sep(rng),
+            spell_flag(rng, info.group), sep(rng), spell_num(rng, info.length as i64, false), tail, eol));
+        if rng.chance(1, 10) { md.push_str(&format!("  # indented comment{}", eol)); }
+    }
+    let mut ud = String::new();
+    for u in &d.unks {
+        let lead = if uni_unk { *rng.pick(&["", "\u{3000}", "\u{a0}\t", "\u{2003}"]) } else { *rng.pick(&["", "", "", " ", "\t"]) };
+        let tail = if uni_unk { *rng.pick(&["", "\u{3000}", ",x\u{a0}", "\u{1680}"]) } else { *rng.pick(&["", "", "", " ", ",extra", ",,", ",a,b,c"]) };
+        let class = if uni_unk && rng.chance(1, 2) {
+            // the class column is trimmed by the flag parser (Unicode white space), piece by piece
+            match rng.below(3) { 0 => format!("{}\u{3000}", name_of(u.cat)), 1 => format!("\u{a0}{}", name_of(u.cat)), _ => format!("{}\u{2003}|\u{3000}{}", name_of(u.cat), name_of(u.cat)) }
+        } else { spell_class(rng, u.cat, true) };
+        ud.push_str(&format!("{}{},{},{},{},{}{}{}", lead, class, spell_num(rng, u.l as i64, true), spell_num(rng, u.r as i64, true),
+            spell_num(rng, u.cost as i64, true), POS[u.pos].join(","), tail, eol));
+        if rng.chance(1, 10) { ud.push_str(&format!(" # comment, with, commas,,,,,,,,,,{}", eol)); }
+        if rng.chance(1, 15) { ud.push_str(eol); }
+    }
+    if uni_unk && d.note.is_empty() { d.note = "unicode-white-space-in-unk.def".into(); }
+    // ---- one malformed line
+    if want_broken {
+        let some_info = d.infos.first().cloned();
+        let nl = d.dims.map_or(N_IDS, |x| x.0);
+        let nr = d.dims.map_or(N_IDS, |x| x.1);
+        let pos0 = POS[0].join(",");
+        let mut raw: Option<Vec<u8>> = None;
+        let (which, in_md, line): (&str, bool, String) = match rng.below(26) {
+            0 => ("length-2^32", true, "USER4 1 1 4294967296".into()),
+            1 => ("length-negative", true, "USER4 1 1 -1".into()),
+            2 => ("length-not-a-number", true, "USER4 1 1 1.0".into()),
+            3 => ("three-columns", true, "USER4 1 1".into()),
+            4 => ("class-lowercase", true, "user4 1 1 0".into()),
+            5 => ("class-empty-piece", true, "USER4| 1 1 0".into()),
+            6 => ("class-hex-overflow", true, "USER4|0x100000000 1 1 0".into()),
+            7 => match &some_info { Some(i) if i.cat.count_ones() == 1 => ("duplicate-key-other-spelling", true, format!("{}|0x{:x} 0 0 0", name_of(i.cat), i.cat)), _ => ("three-columns", true, "USER3 0".into()) },
+            8 => ("unk-id-32768", false, format!("DEFAULT,32768,0,0,{}", pos0)),
+            9 => ("unk-cost-below-i16", false, format!("DEFAULT,0,0,-32769,{}", pos0)),
+            10 => ("unk-space-in-number", false, format!("DEFAULT, 0,0,0,{}", pos0)),
+            11 => ("unk-negative-id", false, format!("DEFAULT,-1,0,0,{}", pos0)),
+            12 => ("unk-nine-columns", false, "DEFAULT,0,0,0,名詞,普通名詞,一般,*,*".into()),
+            13 => ("unk-right-id=num_right", false, format!("DEFAULT,0,{},0,{}", nr, pos0)),
+            14 => ("unk-left-id=num_left", false, format!("DEFAULT,{},0,0,{}", nl, pos0)),
+            15 => ("unk-class-with-unnamed-bit", false, format!("DEFAULT|0x8000,0,0,0,{}", pos0)),
+            16 => ("unk-empty-number", false, format!("DEFAULT,,0,0,{}", pos0)),
+            17 => ("unk-pos-five-components-then-extra", false, "DEFAULT,0,0,0,名詞,普通名詞,一般,*,*,extra".into()),
+            18 => ("unk-class-empty", false, format!(",0,0,0,{}", pos0)),
+            19 => ("unk-plus-minus", false, format!("DEFAULT,+-1,0,0,{}", pos0)),
+            20 => ("unk-u3000-in-number", false, format!("DEFAULT,0\u{3000},0,0,{}", pos0)),
+            21 => ("unk-pos-with-trailing-nbsp", false, format!("DEFAULT,0,0,0,名詞,普通名詞,一般,*,*,*\u{a0},x")),
+            k => {
+                // a line that is not UTF-8 (in a COMMENT: the reader fails while reading the line, before looking at it)
+                let bad: &[u8] = match k { 22 => &[0xFF], 23 => &[0xC0, 0x80], 24 => &[0xED, 0xA0, 0x80], _ => &[0xE3, 0x81] };
+                let mut b = ud.as_bytes().to_vec();
+                b.extend_from_slice(b"# ");
+                b.extend_from_slice(bad);
+                if k != 25 { b.extend_from_slice(eol.as_bytes()); }
+                raw = Some(b);
+                (match k { 22 => "unk-not-utf8:FF", 23 => "unk-not-utf8:overlong-C0-80", 24 => "unk-not-utf8:surrogate-ED-A0-80", _ => "unk-not-utf8:truncated-at-end-of-file" }, false, String::new())
+            }
+        };
+        // the unk.def lines refer to DEFAULT: it must have a behaviour line for the intended error to be the only one
+        if !in_md && raw.is_none() && !d.infos.iter().any(|i| i.cat == DEFAULT) {
+            md.push_str(&format!("DEFAULT 0 1 0{}", eol));
+            d.infos.push(Info { cat: DEFAULT, invoke: false, group: true, length: 0 });
+        }
+        let unk_ge_only = which.starts_with("unk-right-id=") || which.starts_with("unk-left-id=");
+        if raw.is_none() { if in_md { md.push_str(&line); md.push_str(eol); } else { ud.push_str(&line); ud.push_str(eol); } }
+        d.broken = true;
+        // an id EQUAL to the dimension is rejected only by the repaired reader (`>=`, D15b)
+        d.must_fail = !unk_ge_only || source_unk_ge();
+        d.unk_def = ud.clone();
+        d.unk_raw = raw;
+        d.char_def = format!("{}{}", cd, md);
+        d.mecab_def = None;
+        d.files = files;
+        d.note = which.to_string();
+        return d;
+    }
+    // no trailing end-of-line
+    if rng.chance(1, 5) && ud.ends_with(eol) { ud.truncate(ud.len() - eol.len()); }
+    if rng.chance(1, 5) && md.ends_with(eol) { md.truncate(md.len() - eol.len()); }
+    d.unk_def = ud;
+    d.files = files;
+    match files {
+        // behaviour lines in a file of their own; the grammar's char.def then carries OTHER behaviour lines (ignored by the grammar)
+        2 => {
+            d.mecab_def = Some(if rng.chance(1, 2) { md } else { format!("{}{}", cd, md) });
+            d.char_def = format!("{}DEFAULT 1 1 9{}KANJI 1 1 9{}", cd, eol, eol);
+        }
+        _ => { d.char_def = format!("{}{}", cd, md); }
+    }
+    d
+}
+
+/// characters with two or three classes whose behaviour lines MIX the GROUP flag (a lower-bit class grouped and a higher-bit
+/// one not, and vice versa), LENGTH at least the run; texts made of runs of such characters followed by single-class ones
+fn mixed_defs(rng: &mut Rng) -> (Defs, String) {
+    let mut d = Defs::default();
+    let mut cl: Vec<u32> = vec![];
+    while cl.len() < 3 { let c = *rng.pick(PLAIN); if !cl.contains(&c) { cl.push(c); } }
+    cl.sort();
+    let (x, y, z) = (cl[0], cl[1], cl[2]);
+    let two = *rng.pick(&[(x, y), (x, z), (y, z)]);
+    let chars: Vec<(char, u32)> = vec![('ー', two.0 | two.1), ('〇', x | y | z), ('あ', x), ('ア', y), ('漢', z), ('é', x | z), ('1', 16 | 2048)];
+    for &(c, m) in &chars {
+        let names = names_of(m);
+        if names.len() >= 2 && rng.chance(1, 2) {
+            d.char_def.push_str(&format!("0x{:04X} {}\n0x{:04X} {}\n", c as u32, names[0], c as u32, names[1..].join(" ")));
+        } else {
+            d.char_def.push_str(&format!("0x{:04X} {}\n", c as u32, names.join(" ")));
+        }
+        d.pool.push(c);
+        d.assign.push((c, m));
+    }
+    let pattern: [bool; 3] = *rng.pick(&[[true, false, true], [false, true, false], [true, false, false], [false, true, true], [true, true, false], [false, false, true]]);
+    let order: Vec<usize> = if rng.chance(1, 2) { vec![0, 1, 2] } else { vec![2, 0, 1] }; // file order of the lines is not bit order
+    for &k in &order {
+        let info = Info { cat: cl[k], invoke: rng.chance(3, 4), group: pattern[k], length: *rng.pick(&[1u32, 2, 3, 3, 4, 5, 70]) };
+        d.char_def.push_str(&format!("{} {} {} {}\n", name_of(info.cat), info.invoke as u8, info.group as u8, info.length));
+        d.infos.push(info);
+    }
+    if rng.chance(1, 3) { d.char_def.push_str("DEFAULT 0 1 0\n"); d.infos.push(Info { cat: DEFAULT, invoke: false, group: true, length: 0 }); }
+    for info in d.infos.clone() {
+        for _ in 0..rng.range(1, 2) {
+            d.unks.push(Unk { cat: info.cat, l: small_id(rng), r: small_id(rng), cost: small_cost(rng), pos: rng.below(POS.len()) });
+        }
+    }
+    if rng.chance(1, 2) { let n = d.unks.len(); for i in (1..n).rev() { let j = rng.below(i + 1); d.unks.swap(i, j); } }
+    for u in &d.unks {
+        d.unk_def.push_str(&format!("{},{},{},{},{}\n", name_of(u.cat), u.l, u.r, u.cost, POS[u.pos].join(",")));
+    }
+    // text: runs of multi-class characters, then something that ends the run
+    let mut text = String::new();
+    for _ in 0..rng.range(1, 3) {
+        let m = *rng.pick(&['ー', 'ー', '〇', 'é']);
+        for _ in 0..rng.range(1, 3) { text.push(m); }
+        if rng.chance(2, 3) { text.push(*rng.pick(&['あ', 'ア', '漢', '1', '〇', 'ー'])); }
+    }
+    (d, text)
+}
+
+/// the witness of seeded change C13c: `HIRAGANA 0 1 2`, `KATAKANA 1 0 2`, U+30FC = HIRAGANA|KATAKANA, text `ーー京`
+fn c13c_defs() -> Defs {
+    let mut d = Defs::default();
+    d.pool = vec!['ー', '京', 'あ'];
+    d.assign = vec![('ー', 64 | 128), ('京', 4), ('あ', 64)];
+    d.char_def = "0x30FC HIRAGANA KATAKANA\n0x4EAC KANJI\n0x3042 HIRAGANA\nHIRAGANA 0 1 2\nKATAKANA 1 0 2\nKANJI 0 0 1\n".to_string();
+    d.infos = vec![Info { cat: 64, invoke: false, group: true, length: 2 }, Info { cat: 128, invoke: true, group: false, length: 2 }, Info { cat: 4, invoke: false, group: false, length: 1 }];
+    d.unks = vec![Unk { cat: 64, l: 1, r: 1, cost: 20000, pos: 0 }, Unk { cat: 128, l: 2, r: 3, cost: 100, pos: 5 }, Unk { cat: 4, l: 4, r: 4, cost: 300, pos: 0 }];
+    d.unk_def = format!("HIRAGANA,1,1,20000,{}\nKATAKANA,2,3,100,{}\nKANJI,4,4,300,{}\n", POS[0].join(","), POS[5].join(","), POS[0].join(","));
+    d
+}
+
+/// LENGTH at the limits of `u32`
+fn u32_defs(length: &str, ok: bool) -> Defs {
+    let mut d = Defs::default();
+    d.pool = vec!['a', 'b', '漢'];
+    d.assign = vec![('a', 32), ('b', 32), ('漢', 4)];
+    d.char_def = format!("0x61..0x7A ALPHA\n0x6F22 KANJI\nALPHA 1 0 {}\nKANJI 0 0 1\n", length);
+    d.infos = vec![Info { cat: 32, invoke: true, group: false, length: u32::MAX }, Info { cat: 4, invoke: false, group: false, length: 1 }];
+    d.unks = vec![Unk { cat: 32, l: 1, r: 2, cost: 100, pos: 0 }, Unk { cat: 4, l: 2, r: 2, cost: 300, pos: 1 }];
+    d.unk_def = format!("ALPHA,1,2,100,{}\nKANJI,2,2,300,{}\n", POS[0].join(","), POS[1].join(","));
+    if !ok { d.broken = true; d.must_fail = true; }
+    d
+}
+
 pub fn run(run: &mut Run) {
     run.rule = "random char.def (2-4 plain classes, multi-class characters, ALL(+NOOOVBOW/NOOOVBOW2) marks, NOOOVBOW letters, unions over \
 two lines) + class behaviour lines (invoke/group/length 0-4 or 60-80, ALL/NOOOVBOW keys, classes without behaviour) + unk.def (0-3 lines per \
@@ -1227,7 +1651,13 @@ class, interleaved, ids up to the matrix size, occasionally broken files); texts
 existing ends), lat (1-4 providers in every order, random lexicon, optional NFKC input plugin; all lattice nodes + every provide_oov call \
 the real builder makes, observed through wrapped providers; a third of the lat cases use the shipped shape of char.def around joiners: \
 ALPHA/GREEK/CYRILLIC letters with 1-3 character candidates, ZWJ/ZWNJ = ALL NOOOVBOW2, combining mark = ALL NOOOVBOW, MeCab before the \
-fallback), info (OOV morphemes). \
+fallback), info (OOV morphemes). Third round: every 20th case = characters with two or three classes whose behaviour lines MIX the \
+GROUP flag (lower-bit class grouped / higher-bit not and vice versa, LENGTH up to and beyond the run; prov and lat); two in 20 = the SYNTAX of \
+the definition files (class keys as NAME|NAME, NAME|0x.. hex literals, bare hex in unk.def, +n / 00n / -0 numbers, flags other than 0/1, tabs, \
+leading/trailing blanks, extra columns, CRLF, no final newline, indented comments; one in five with ONE malformed line out of 20 kinds that must \
+be rejected), the three shapes of the plugin settings (explicit default names, keys omitted, other file names with decoy behaviour lines in the \
+grammar's char.def), 6x4 and 4x6 connection matrices, characters with class bits that have no name (hex literal in a range line); a failing \
+lattice run (Err/panic) answers with the provide_oov calls made before the failure. \
 non-trivial = multi-class text of >=3 characters (buf), some node produced (prov), some OOV node in the lattice (lat); distinct by full line".into();
     let wd = Workdir::new_legacy("c13");
     let system = build_dic(&fixed_rows(), 77);
@@ -1308,10 +1738,80 @@ non-trivial = multi-class text of >=3 characters (buf), some node produced (prov
                 let lc = LatCase { provs, sp: SimpleP { l: 5, r: 5, cost: 7000, pos: 3 }, rp: rp0.clone(), lex: fixed_rows(), normalise: false };
                 case_lat(run, &ctx, idx, &zw_fixed_defs(), texts[idx - 20], &lc)
             }
+            26 | 28 => {
+                // seeded change C13c: U+30FC = HIRAGANA|KATAKANA, the lower-bit class groups, the higher-bit one does not
+                case_prov(run, &ctx, idx, &c13c_defs(), if idx == 26 { "ーー京" } else { "あーーあー" }, Prov::M, &sp0, &rp0, &mut rng, &[])
+            }
+            27 => {
+                let lc = LatCase { provs: vec![Prov::M, Prov::S], sp: SimpleP { l: 5, r: 5, cost: 7000, pos: 3 }, rp: rp0.clone(), lex: fixed_rows(), normalise: false };
+                case_lat(run, &ctx, idx, &c13c_defs(), "ーー京", &lc)
+            }
+            29 | 30 | 31 => {
+                // LENGTH at the limits of u32: 4294967295 is read (and the 1..n loop stops at the run), 4294967296 is rejected
+                let (txt, ok) = [("4294967295", true), ("4294967296", false), ("+4294967295", true)][idx - 29];
+                let q = vec![(0usize, 0u64, vec![]), (1, 0, vec![]), (0, 1, vec![1]), (1, 2, vec![])];
+                case_prov_q(run, &ctx, idx, &u32_defs(txt, ok), "ab漢", Prov::M, &sp0, &rp0, &mut rng, &q, true)
+            }
+            32 | 33 => {
+                // a run that ends in EosBosDisconnect after several provider calls (no fallback): the calls are compared too
+                let provs = if idx == 32 { vec![Prov::R, Prov::M] } else { vec![Prov::M, Prov::M] };
+                let lc = LatCase { provs, sp: sp0.clone(), rp: rp0.clone(), lex: fixed_rows(), normalise: false };
+                case_lat(run, &ctx, idx, &alpha_defs(), "abあ漢a", &lc)
+            }
+            34 | 35 => {
+                // finding NEW-C13-1: the shipped line `KANJI 0 0 2` on a text that ENDS in a kanji - the one-character candidate twice
+                case_prov(run, &ctx, idx, &d11_defs(), if idx == 34 { "漢" } else { "👍漢漢" }, Prov::M, &sp0, &rp0, &mut rng, &[])
+            }
             // ---- generated cases
             _ => {
+                let kind20 = idx % 20;
                 let kind = idx % 10;
-                if kind == 9 {
+                if kind20 == 12 {
+                    // tables of characters with unnamed class bits / CRLF / other spellings
+                    let d0 = gen_defs(&mut rng, false, false);
+                    let d = noise_defs(&mut rng, d0);
+                    let text = gen_text(&mut rng, &d.pool, &[]);
+                    if !d.note.is_empty() { run.bump(&format!("buf:noise:{}", d.note)); }
+                    if !d.broken { case_buf(run, &ctx, idx, &d, &text); }
+                } else if kind20 == 15 || kind20 == 16 {
+                    // the syntax of the two files, settings shapes, non-square matrices
+                    let mut d = gen_defs(&mut rng, false, false);
+                    if !d.broken && rng.chance(1, 3) {
+                        let dims = *rng.pick(&[(6usize, 4usize), (4, 6)]);
+                        for u in d.unks.iter_mut() { u.l %= dims.0 as u16; u.r %= dims.1 as u16; }
+                        d.dims = Some(dims);
+                    }
+                    let d = noise_defs(&mut rng, d);
+                    run.bump(if d.must_fail { "prov:noise:malformed" } else { "prov:noise:well-formed-spellings" });
+                    if !d.note.is_empty() { run.bump(&format!("prov:noise:{}", d.note)); }
+                    let text = gen_text(&mut rng, &d.pool, &[]);
+                    let sp = gen_simple(&mut rng);
+                    let rp = gen_regex(&mut rng, &d.pool, true);
+                    case_prov(run, &ctx, idx, &d, &text, Prov::M, &sp, &rp, &mut rng, &[]);
+                } else if kind20 == 17 {
+                    let (d, text) = mixed_defs(&mut rng);
+                    run.bump("prov:mixed-group-definitions");
+                    case_prov(run, &ctx, idx, &d, &text, Prov::M, &sp0, &rp0, &mut rng, &[]);
+                } else if kind20 == 18 {
+                    if rng.chance(1, 2) {
+                        let (d, text) = mixed_defs(&mut rng);
+                        let mut lc = gen_lat(&mut rng, &d);
+                        if !lc.provs.iter().any(|p| matches!(p, Prov::M)) { lc.provs.insert(0, Prov::M); }
+                        lc.normalise = false;
+                        run.bump("lat:mixed-group-definitions");
+                        case_lat(run, &ctx, idx, &d, &text, &lc);
+                    } else {
+                        let d0 = gen_defs(&mut rng, false, false);
+                    let d = noise_defs(&mut rng, d0);
+                        let mut lc = gen_lat(&mut rng, &d);
+                        if !lc.provs.iter().any(|p| matches!(p, Prov::M)) { lc.provs.insert(0, Prov::M); }
+                        lc.normalise = false;
+                        run.bump("lat:noise-definitions");
+                        let text = gen_text(&mut rng, &d.pool, &[]);
+                        if d.must_fail { run.bump("lat:noise:malformed"); }
+                        case_lat(run, &ctx, idx, &d, &text, &lc);
+                    }
+                } else if kind == 9 {
                     let d = zw_defs(&mut rng);
                     let lc = zw_lat(&mut rng, &d);
                     let text = zw_text(&mut rng);
